@@ -1,0 +1,23 @@
+//go:build verif
+// +build verif
+
+package css_parser
+
+// Exports for the /verif correspondence harness (build tag "verif" only). Add-only.
+
+import (
+	"github.com/evanw/esbuild/internal/css_ast"
+	"github.com/evanw/esbuild/internal/css_lexer"
+)
+
+// VerifReduceCalc runs tryToReduceCalcExpression on a "calc(" function token with the given children.
+// The second result says whether the token was replaced.
+func VerifReduceCalc(children []css_ast.Token, minifyWhitespace bool) (css_ast.Token, bool) {
+	p := &parser{}
+	p.options.minifyWhitespace = minifyWhitespace
+	in := css_ast.Token{Kind: css_lexer.TFunction, Text: "calc", Children: &children}
+	out := p.tryToReduceCalcExpression(in)
+	return out, out.Children != in.Children
+}
+
+func VerifFloatToStringForCalc(a float64) (string, bool) { return floatToStringForCalc(a) }
